@@ -277,9 +277,12 @@ def psfandgridconv(xi1, eta1, lat, lon, cm, conf_lat, ellipsoid=grs80, prj=utm):
     grid_conv = degrees(atan(abs(q / p))
                         + atan(abs(tan(conf_lat) * tan(long_diff))
                                / sqrt(1 + tan(conf_lat)**2)))
-    if cm > lon and lat < 0:
+    # Side of the Central Meridian (longitude difference reduced to
+    # -180..180 so that zones next to the antimeridian are handled)
+    east_of_cm = (lon - cm + 180) % 360 - 180
+    if east_of_cm < 0 and lat < 0:
         grid_conv = -grid_conv
-    elif cm < lon and lat > 0:
+    elif east_of_cm > 0 and lat > 0:
         grid_conv = -grid_conv
 
     return psf, grid_conv
